@@ -92,6 +92,9 @@ pub fn render_markdown(doc: &DocSpec, log: &str) -> Vec<u8> {
         s.push_str("---\n\n");
     }
     s.push_str(&format!("# Document {}\n\n", doc.name));
+    if doc.tests.is_empty() {
+        s.push_str("This document has no test cases of its own.\n");
+    }
     for t in &doc.tests {
         s.push_str(&format!("## {}\n\n", t.id));
         let mut cfg = vec![];
@@ -103,6 +106,9 @@ pub fn render_markdown(doc: &DocSpec, log: &str) -> Vec<u8> {
         }
         if t.detached {
             cfg.push("detached: true".to_string());
+        }
+        if let Some(w) = t.wait_ms {
+            cfg.push(format!("wait: {}", ms(w)));
         }
         if cfg.is_empty() {
             s.push_str("```scrut\n");
@@ -127,6 +133,9 @@ pub fn render_markdown(doc: &DocSpec, log: &str) -> Vec<u8> {
 
 pub fn render_cram(doc: &DocSpec, log: &str) -> Vec<u8> {
     let mut s = String::new();
+    if doc.tests.is_empty() {
+        s.push_str("This document has no test cases of its own\n");
+    }
     for t in &doc.tests {
         s.push_str(&format!("{}\n", t.id));
         s.push_str(&format!("  $ {}\n", command(t, log)));
@@ -511,6 +520,32 @@ pub fn judge(run: &RunSpec, model: &RunModel, obs: &Observation, clauses: Clause
                                     "result-kind",
                                     format!("expected={}/got={}/{}/{rel}", exp.join("|"), c.name(), fmt_of(d)),
                                     format!("test case {} (#{} of {}): reported `{k}`, model says {}; model: {}; report: {:?}", t.id, i + 1, d.name, exp.join("|"), describe_doc(d), rs),
+                                ));
+                            }
+                        }
+                    }
+                    if let DocEnd::TimedOut { at, or_next: true, .. } = d.end {
+                        // the budget ran out while scrut waited before test `at`: that test case
+                        // or the next one is the aborted one, the other is not passed after it
+                        let class_at = |i: usize| -> Option<Class> {
+                            d.seq.get(i).and_then(|t| by_key.get(&(location(d), t.id.clone()))).and_then(|ks| ks.first()).map(|k| Class::of_kind(k))
+                        };
+                        let failedish = |c: Option<Class>| matches!(c, Some(Class::Timeout) | Some(Class::Fail));
+                        let (ca, cb) = (class_at(at), class_at(at + 1));
+                        if ca.is_some() && cb.is_some() {
+                            if failedish(ca) {
+                                if cb != Some(Class::Skipped) {
+                                    findings.push(Finding::new(
+                                        "budget-exhausted",
+                                        format!("after-aborted/got={}", cb.map(|c| c.name()).unwrap_or("none")),
+                                        format!("document {}: the limit ran out during the wait of test case #{}; it is reported as failed but the next one is not skipped; report: {:?}", d.name, at + 1, rs),
+                                    ));
+                                }
+                            } else if !failedish(cb) {
+                                findings.push(Finding::new(
+                                    "budget-exhausted",
+                                    "no-failed-result".to_string(),
+                                    format!("document {}: the limit ran out during the wait of test case #{} but neither it nor the next test case is reported as failed / timed out; report: {:?}", d.name, at + 1, rs),
                                 ));
                             }
                         }
